@@ -1,6 +1,7 @@
 SPECIFICATION Spec
 CONSTANTS
   NONE <- None
+  F17 = FALSE
   U = {"turnout", "dem", "gop", "margin", "party_vote_share_dem"}
   MaxLen = 2
   FullPtrs = FALSE
@@ -10,6 +11,7 @@ INVARIANT StepwiseIsFunctional
 INVARIANT NoSilentOverwrite
 INVARIANT LastElectionIsBaselinePlusOne
 INVARIANT BaselineWeightsRule
+INVARIANT Idempotent
 INVARIANT NormalizedMarginInRange
 INVARIANT ReturnedColumnsExist
 INVARIANT TurnoutReturnedOnce
